@@ -26,6 +26,7 @@ RULE = ("stub cases: tripeptides X-ALA-ALA / ALA-X-ALA / ALA-ALA-X for X in ASP 
         "structure, fixed pKa table, 9-15 pH values (stub) / 29 pH values (real PROPKA on fragments). Non-trivial: "
         "every cell; distinct = cell x pKa relation class"
         ' Round-2 additions: four-character residue numbers (>= 1000, <= -100); residues sharing name, number and chain that differ only by insertion code with mixed pKa sides; the rows real PROPKA returns are judged group by group like the stubbed tables.'
+        ' Round-9 addition: two free cysteines with sulfurs 2.55-3.6 A apart (beyond the bridge limit), each with its own pKa row.'
         ' Round-3/4 additions: PARSE neutral-terminus cells (--neutraln/--neutralc crossed with every group in the terminal residue); unequal carboxyl C-O bonds.')
 ASSUMPTIONS = ["the stub reproduces PROPKA 3.5.1's row schema (res_num, ins_code, res_name, chain_id, group_label "
                "'%-3s%4d%2s', pKa; terminal groups labelled 'N+ ' / 'C- ' with the residue's own res_name)",
@@ -33,8 +34,8 @@ ASSUMPTIONS = ["the stub reproduces PROPKA 3.5.1's row schema (res_num, ins_code
                "for the titrated state at that chain position",
                "a warning for a kept default = a record at WARNING or above emitted during the titration stage that "
                "mentions the residue number"]
-MIN = {"quick": {"groups_checked": 1500, "sweeps": 20, "propka_sweeps": 2, "propka_rows_judged": 100, "neutral_terminus_cells": 14, "icode_cells": 20, "cells_with_ffout": 80, "api_terminal_cells": 100},
-       "thorough": {"groups_checked": 40000, "sweeps": 600, "propka_sweeps": 30, "propka_rows_judged": 3000, "neutral_terminus_cells": 800, "icode_cells": 1200, "cells_with_ffout": 6000, "api_terminal_cells": 4000}}
+MIN = {"quick": {"groups_checked": 1500, "sweeps": 20, "propka_sweeps": 2, "propka_rows_judged": 100, "neutral_terminus_cells": 14, "icode_cells": 20, "cells_with_ffout": 80, "api_terminal_cells": 100, "near_cysteine_pairs": 15},
+       "thorough": {"groups_checked": 40000, "sweeps": 600, "propka_sweeps": 30, "propka_rows_judged": 3000, "neutral_terminus_cells": 800, "icode_cells": 1200, "cells_with_ffout": 6000, "api_terminal_cells": 4000, "near_cysteine_pairs": 600}}
 CELLS_REQUIRED = 276
 from ..mon.pkastub import GROUPS, STUB, TITR, install, label, make_table  # noqa: E402,F401
 
@@ -69,6 +70,12 @@ def cases(tier, seed):
         for ff in common.FFS:
             for g in GROUPS:
                 out.append({"kind": "icodecell", "ff": ff, "group": g, "seed": seed * 1013 + rep * 1000 + len(out)})
+    # two free cysteines whose sulfurs are close but beyond the 2.5 A bridge limit (2.55-3.6 A: stretched / reduced
+    # disulfides): both are titratable groups with their own pKa rows, not a bridge
+    for rep in range(1 if tier == "quick" else 40):
+        for ff in common.FFS:
+            for pa in "NIC":
+                out.append({"kind": "nearcys", "ff": ff, "pos": pa, "seed": seed * 1031 + rep * 1000 + len(out)})
     ns = 24 if tier == "quick" else 2500
     for i in range(ns):
         out.append({"kind": "sweep", "ff": common.FFS[i % 6], "seed": seed * 7001 + i})
@@ -298,6 +305,55 @@ def run_icodecell(spec, res):
     res.sample = {"kind": "icodecell", "group": x, "ff": spec["ff"], "pH": ph, "sides": sides}
 
 
+def run_nearcys(spec, res):
+    """CYS-CYS contact beyond the bridge limit: each sulfur keeps its own titration (seed C06j: a widened bridge limit
+    turned such pairs into CYX before the pKa table was looked at)."""
+    from .c13 import place, sg_of
+    import numpy as np
+    install()
+    rng = random.Random(spec["seed"])
+    ka = {"N": 0, "I": 1, "C": 2}[spec["pos"]]
+    pb = rng.choice("NIC")
+    kb = {"N": 0, "I": 1, "C": 2}[pb]
+    seqs = [["ALA", "ALA", "ALA"], ["ALA", "ALA", "ALA"]]
+    seqs[0][ka] = "CYS"
+    seqs[1][kb] = "CYS"
+    pepA = S.peptide(seqs[0], rng, hydrogens="none")
+    pepB = S.peptide(seqs[1], rng, hydrogens="none")
+    d = rng.choice([2.55, 2.6, 2.75, 2.9, 2.99, 3.05, 3.3, 3.6])
+    place(pepA, ka, pepB, kb, d, rng)
+    items, truth = S.assemble([{"id": "A", "start": rng.choice([1, 20, 300]), "residues": pepA},
+                               {"id": "B", "start": rng.choice([1, 20, 300]), "residues": pepB}])
+    text = pdbfmt.to_text(items)
+    dist = float(np.linalg.norm(sg_of(pepA[ka]) - sg_of(pepB[kb])))
+    ph = round(rng.uniform(1, 13), rng.choice([1, 2]))
+    sides = rng.choice([("below", "above"), ("above", "below"), ("above", "above"), ("below", "below")])
+    forced = {("CYS", ka): sides[0], ("CYS", 3 + kb): sides[1]}
+    rows, groups = make_table(truth, rng, ph, forced)
+    STUB["table"] = rows
+    STUB["titration_log"] = []
+    try:
+        # no debumping / optimisation: the sulfurs stay where the file puts them
+        r = pipeline.run(text, [f"--ff={spec['ff']}", "--titration-state-method=propka", f"--with-ph={ph}"] +
+                         rng.choice([["--nodebump", "--noopt"], ["--nodebump"], []]), workname="c06")
+    finally:
+        STUB["table"] = None
+    res.count("stub_runs")
+    res.count("near_cysteine_pairs")
+    if not r.ok:
+        res.violate(f"titration/run-aborts/CYS@nearpair/{spec['ff']}", f"run with two free cysteines {dist:.2f} A apart "
+                    f"fails: {type(r.exc).__name__} {str(r.exc)[:100]}", ff=spec["ff"], pH=ph, seed=spec["seed"])
+        return
+    before = len(res.violations)
+    judge_groups(res, spec, truth, items, [g for g in groups if g["group"] == "CYS"], r, ph, spec["ff"])
+    for v in res.violations[before:]:
+        v["witness"]["sg_sg_distance"] = round(dist, 3)
+        v["witness"]["original_mech"] = v["mech"]
+        v["mech"] = "titration/free-cysteine-near-another-sulfur/" + v["mech"].split("/")[1]
+    res.nt("nearcys", spec["ff"], spec["pos"], pb, sides, d)
+    res.sample = {"kind": "nearcys", "ff": spec["ff"], "pH": ph, "sg_sg": round(dist, 3), "sides": sides}
+
+
 def total_and_residues(r):
     pq = pipeline.parse_pqr(r.pqr_text)
     return sum(a["q"] for a in pq), {(a["resn"][-3:], a["resi"]) for a in pq}, pq
@@ -405,6 +461,8 @@ def run_case(spec):
         run_cell(spec, res)
     elif spec["kind"] == "icodecell":
         run_icodecell(spec, res)
+    elif spec["kind"] == "nearcys":
+        run_nearcys(spec, res)
     elif spec["kind"] == "sweep":
         run_sweep(spec, res)
     else:
